@@ -611,6 +611,28 @@ func (c10) Exec(script interface{}, c *core.Ctx) {
 		return
 	}
 	st := scte35.NewState()
+	// a second tracker alive in the same process (one per channel is the normal use):
+	// nothing done to the tracker under test may show there
+	other := scte35.NewState()
+	_, bds := c10Build(C10Signal{T: 4500000, Descs: []C10Desc{{Type: 0x10, Event: 900001}, {Type: 0x30, Event: 900002}}}, 12345)
+	for _, bd := range bds {
+		bd := bd
+		if !c.Call("State.ProcessDescriptor(bystander)", func() { other.ProcessDescriptor(bd) }) {
+			return
+		}
+	}
+	defer func() {
+		if c.Failed() {
+			return
+		}
+		var o []scte35.SegmentationDescriptor
+		if !c.Call("State.Open(bystander)", func() { o = other.Open() }) {
+			return
+		}
+		if len(o) != 2 || o[0] != bds[0] || o[1] != bds[1] {
+			c.Fail("trackers_independent", "another_tracker_changed", len(o), "its own two descriptors")
+		}
+	}()
 	info := map[scte35.SegmentationDescriptor]*c10Info{}
 	// pending breakaways, in acceptance order: kept by the tracker but (the most
 	// recent one at least) hidden from Open(). "open" in the statement = Open() + these.
